@@ -1,16 +1,15 @@
 SPECIFICATION HSpec
 CONSTANTS
   Ids = {1, 2, 3}
-  RecIds <- RecsSmall
+  RecIds <- RecsIC
   RootId = 1
   PhenoId = 2
-  WithPairs = FALSE
-  MaxFacts = 3
+  WithPairs = TRUE
+  MaxFacts = 2
   EmitAll = TRUE
 INVARIANTS
-  ClosureExact
-  LinkExact
-  Resolvable
-  UpClosed
+  SimSymmetric
+  SimBounds
+  DistIsMin
   Emit
 CHECK_DEADLOCK FALSE
